@@ -143,6 +143,8 @@ SwapIn(S, p) == IF ~HasFile(S, Aside(p)) THEN S ELSE
   [S EXCEPT !.files = [x \in (DOMAIN S.files \ {Aside(p)}) \cup {p} |-> IF x = p THEN S.files[Aside(p)] ELSE S.files[x]],
             !.dirs = @ \ {p}]
 HiddenByEnv(S, p) == HasFile(S, Aside(p))
+\* a new process starts on the directory the previous one left behind: the registry is empty, the files stay
+Restart(S) == [S EXCEPT !.reg = {}]
 RemovePath(S, p) == [S EXCEPT !.dirs = { d \in @ : ~(Len(d) >= Len(p) /\ SubSeq(d, 1, Len(p)) = p) },
                               !.files = [x \in { x \in DOMAIN S.files : ~(Len(x) >= Len(p) /\ SubSeq(x, 1, Len(p)) = p) } |-> S.files[x]]]
 
